@@ -1,4 +1,7 @@
-package props
+//go:build verif
+
+// Package hx holds helpers shared by the per-property test packages.
+package hx
 
 import (
 	"crypto/ecdsa"
@@ -14,6 +17,7 @@ import (
 	"net"
 	"os"
 	"path/filepath"
+	"runtime"
 	"sync"
 	"sync/atomic"
 	"testing"
@@ -51,7 +55,7 @@ import (
 	_ "verifharness/vt"
 )
 
-var sockCtors = map[string]func() (mangos.Socket, error){
+var SockCtors = map[string]func() (mangos.Socket, error){
 	"pair": pair.NewSocket, "xpair": xpair.NewSocket, "pair1": pair1.NewSocket, "xpair1": xpair1.NewSocket,
 	"req": req.NewSocket, "xreq": xreq.NewSocket, "rep": rep.NewSocket, "xrep": xrep.NewSocket,
 	"pub": pub.NewSocket, "xpub": xpub.NewSocket, "sub": sub.NewSocket, "xsub": xsub.NewSocket,
@@ -61,11 +65,11 @@ var sockCtors = map[string]func() (mangos.Socket, error){
 	"bus": bus.NewSocket, "xbus": xbus.NewSocket, "star": star.NewSocket, "xstar": xstar.NewSocket,
 }
 
-var allProtos = []string{"pair", "xpair", "pair1", "xpair1", "req", "xreq", "rep", "xrep", "pub", "xpub", "sub", "xsub",
+var AllProtos = []string{"pair", "xpair", "pair1", "xpair1", "req", "xreq", "rep", "xrep", "pub", "xpub", "sub", "xsub",
 	"push", "xpush", "pull", "xpull", "surveyor", "xsurveyor", "respondent", "xrespondent", "bus", "xbus", "star", "xstar"}
 
-// peerOf gives a protocol that can talk to p (cooked peer).
-var peerOf = map[string]string{
+// PeerOf gives a protocol that can talk to p (cooked peer).
+var PeerOf = map[string]string{
 	"pair": "pair", "xpair": "pair", "pair1": "pair1", "xpair1": "pair1",
 	"req": "rep", "xreq": "rep", "rep": "req", "xrep": "req",
 	"pub": "sub", "xpub": "sub", "sub": "pub", "xsub": "pub",
@@ -74,9 +78,9 @@ var peerOf = map[string]string{
 	"bus": "bus", "xbus": "bus", "star": "star", "xstar": "star",
 }
 
-// mustSock opens a socket of the named protocol and closes it when the case ends.
-func mustSock(c *mon.Case, name string) mangos.Socket {
-	f, ok := sockCtors[name]
+// MustSock opens a socket of the named protocol and closes it when the case ends.
+func MustSock(c *mon.Case, name string) mangos.Socket {
+	f, ok := SockCtors[name]
 	if !ok {
 		panic("unknown protocol " + name)
 	}
@@ -90,16 +94,16 @@ func mustSock(c *mon.Case, name string) mangos.Socket {
 
 var uniqN atomic.Int64
 
-// uniq returns a process-unique token.
-func uniq(prefix string) string {
+// Uniq returns a process-unique token.
+func Uniq(prefix string) string {
 	return fmt.Sprintf("%s-%d-%d", prefix, os.Getpid(), uniqN.Add(1))
 }
 
 var tmpDirOnce sync.Once
 var tmpDir string
 
-// scratchDir is a per-process scratch directory (under VERIF_TMP when the driver runs us).
-func scratchDir() string {
+// ScratchDir is a per-process scratch directory (under VERIF_TMP when the driver runs us).
+func ScratchDir() string {
 	tmpDirOnce.Do(func() {
 		base := os.Getenv("VERIF_TMP")
 		if base == "" {
@@ -114,7 +118,8 @@ func scratchDir() string {
 	return tmpDir
 }
 
-func TestMain(m *testing.M) {
+// Main is the TestMain body of every property package (removes the scratch directory).
+func Main(m *testing.M) {
 	code := m.Run()
 	if tmpDir != "" {
 		os.RemoveAll(tmpDir)
@@ -122,19 +127,19 @@ func TestMain(m *testing.M) {
 	os.Exit(code)
 }
 
-var transports = []string{"inproc", "ipc", "tcp", "tls+tcp", "ws", "wss"}
+var Transports = []string{"inproc", "ipc", "tcp", "tls+tcp", "ws", "wss"}
 
-// listenAddr returns an address to Listen on for the transport (ephemeral where possible).
-func listenAddr(tr string) string {
+// ListenAddr returns an address to Listen on for the transport (ephemeral where possible).
+func ListenAddr(tr string) string {
 	switch tr {
 	case "inproc":
-		return "inproc://" + uniq("ip")
+		return "inproc://" + Uniq("ip")
 	case "ipc":
 		// unix socket paths are limited to ~108 bytes
-		d := scratchDir()
+		d := ScratchDir()
 		p := filepath.Join(d, fmt.Sprintf("s%d", uniqN.Add(1)))
 		if len(p) > 100 {
-			p = filepath.Join(os.TempDir(), uniq("vpipc"))
+			p = filepath.Join(os.TempDir(), Uniq("vpipc"))
 		}
 		return "ipc://" + p
 	case "tcp":
@@ -142,22 +147,22 @@ func listenAddr(tr string) string {
 	case "tls+tcp":
 		return "tls+tcp://127.0.0.1:0"
 	case "ws":
-		return "ws://127.0.0.1:0/" + uniq("p")
+		return "ws://127.0.0.1:0/" + Uniq("p")
 	case "wss":
-		return "wss://127.0.0.1:0/" + uniq("p")
+		return "wss://127.0.0.1:0/" + Uniq("p")
 	case "vt":
-		return "vt://" + uniq("vt")
+		return "vt://" + Uniq("vt")
 	}
 	panic("transport " + tr)
 }
 
-func needsTLS(tr string) bool { return tr == "tls+tcp" || tr == "wss" }
+func NeedsTLS(tr string) bool { return tr == "tls+tcp" || tr == "wss" }
 
 var tlsOnce sync.Once
 var srvTLS, cliTLS *tls.Config
 
-// tlsConfigs returns a server and a client config sharing a throw-away CA.
-func tlsConfigs() (*tls.Config, *tls.Config) {
+// TlsConfigs returns a server and a client config sharing a throw-away CA.
+func TlsConfigs() (*tls.Config, *tls.Config) {
 	tlsOnce.Do(func() {
 		caKey, _ := ecdsa.GenerateKey(elliptic.P256(), crand.Reader)
 		caT := &x509.Certificate{SerialNumber: big.NewInt(1), Subject: pkix.Name{CommonName: "verif-ca"},
@@ -179,16 +184,16 @@ func tlsConfigs() (*tls.Config, *tls.Config) {
 	return srvTLS, cliTLS
 }
 
-// connect makes `srv` listen on the transport and `cli` dial it (synchronously).
+// Connect makes `srv` listen on the transport and `cli` dial it (synchronously).
 // It returns the listener and dialer.
-func connect(srv, cli mangos.Socket, tr string) (mangos.Listener, mangos.Dialer, error) {
+func Connect(srv, cli mangos.Socket, tr string) (mangos.Listener, mangos.Dialer, error) {
 	var lo, do map[string]interface{}
-	if needsTLS(tr) {
-		s, c := tlsConfigs()
+	if NeedsTLS(tr) {
+		s, c := TlsConfigs()
 		lo = map[string]interface{}{mangos.OptionTLSConfig: s}
 		do = map[string]interface{}{mangos.OptionTLSConfig: c}
 	}
-	l, err := srv.NewListener(listenAddr(tr), lo)
+	l, err := srv.NewListener(ListenAddr(tr), lo)
 	if err != nil {
 		return nil, nil, fmt.Errorf("NewListener: %w", err)
 	}
@@ -205,16 +210,16 @@ func connect(srv, cli mangos.Socket, tr string) (mangos.Listener, mangos.Dialer,
 	return l, d, nil
 }
 
-// pipeWatch counts attach/detach events on a socket.
-type pipeWatch struct {
+// PipeWatch counts attach/detach events on a socket.
+type PipeWatch struct {
 	mu       sync.Mutex
 	attached int
 	detached int
 	pipes    []mangos.Pipe
 }
 
-func watchPipes(s mangos.Socket) *pipeWatch {
-	w := &pipeWatch{}
+func WatchPipes(s mangos.Socket) *PipeWatch {
+	w := &PipeWatch{}
 	s.SetPipeEventHook(func(ev mangos.PipeEvent, p mangos.Pipe) {
 		w.mu.Lock()
 		switch ev {
@@ -229,18 +234,18 @@ func watchPipes(s mangos.Socket) *pipeWatch {
 	return w
 }
 
-func (w *pipeWatch) Attached() int { w.mu.Lock(); defer w.mu.Unlock(); return w.attached }
-func (w *pipeWatch) Detached() int { w.mu.Lock(); defer w.mu.Unlock(); return w.detached }
-func (w *pipeWatch) Live() int     { w.mu.Lock(); defer w.mu.Unlock(); return w.attached - w.detached }
+func (w *PipeWatch) Attached() int { w.mu.Lock(); defer w.mu.Unlock(); return w.attached }
+func (w *PipeWatch) Detached() int { w.mu.Lock(); defer w.mu.Unlock(); return w.detached }
+func (w *PipeWatch) Live() int     { w.mu.Lock(); defer w.mu.Unlock(); return w.attached - w.detached }
 
-// waitAttached waits (stuck-detector backed) until n pipes have attached.
-func waitAttached(c *mon.Case, w *pipeWatch, n int, what string) bool {
+// WaitAttached waits (stuck-detector backed) until n pipes have attached.
+func WaitAttached(c *mon.Case, w *PipeWatch, n int, what string) bool {
 	return c.AwaitOrViolate("harness:attach-stuck:"+what, "waiting for "+what+" to attach", func() bool { return w.Attached() >= n }, mon.AwaitOpts{MaxTimer: 200 * time.Millisecond})
 }
 
-func be32(v uint32) []byte { b := make([]byte, 4); binary.BigEndian.PutUint32(b, v); return b }
+func Be32(v uint32) []byte { b := make([]byte, 4); binary.BigEndian.PutUint32(b, v); return b }
 
-func cat(bs ...[]byte) []byte {
+func Cat(bs ...[]byte) []byte {
 	var out []byte
 	for _, b := range bs {
 		out = append(out, b...)
@@ -252,13 +257,13 @@ func cat(bs ...[]byte) []byte {
 
 var yieldHits sync.Map // point -> *atomic.Int64
 
-type yieldCfg struct {
-	probGosched float64
-	probSleep   float64
-	maxSleep    time.Duration
+type YieldCfg struct {
+	ProbGosched float64
+	ProbSleep   float64
+	MaxSleep    time.Duration
 }
 
-var yieldState atomic.Pointer[yieldCfg]
+var yieldState atomic.Pointer[YieldCfg]
 var yieldRnd = struct {
 	sync.Mutex
 	r *rand.Rand
@@ -274,12 +279,12 @@ func init() {
 		}
 		yieldRnd.Lock()
 		x := yieldRnd.r.Float64()
-		d := time.Duration(yieldRnd.r.Int63n(int64(cfg.maxSleep) + 1))
+		d := time.Duration(yieldRnd.r.Int63n(int64(cfg.MaxSleep) + 1))
 		yieldRnd.Unlock()
 		switch {
-		case x < cfg.probSleep:
+		case x < cfg.ProbSleep:
 			time.Sleep(d)
-		case x < cfg.probSleep+cfg.probGosched:
+		case x < cfg.ProbSleep+cfg.ProbGosched:
 			for i := 0; i < 3; i++ {
 				goschedYield()
 			}
@@ -287,16 +292,16 @@ func init() {
 	})
 }
 
-// setYields turns schedule perturbation on (seeded) or off (nil cfg).
-func setYields(seed int64, cfg *yieldCfg) {
+// SetYields turns schedule perturbation on (seeded) or off (nil cfg).
+func SetYields(seed int64, cfg *YieldCfg) {
 	yieldRnd.Lock()
 	yieldRnd.r = rand.New(rand.NewSource(seed))
 	yieldRnd.Unlock()
 	yieldState.Store(cfg)
 }
 
-// yieldHitCount returns total hits and number of distinct points hit so far.
-func yieldHitCount() (total int64, points int) {
+// YieldHitCount returns total hits and number of distinct points hit so far.
+func YieldHitCount() (total int64, points int) {
 	yieldHits.Range(func(k, v interface{}) bool {
 		total += v.(*atomic.Int64).Load()
 		points++
@@ -305,9 +310,9 @@ func yieldHitCount() (total int64, points int) {
 	return
 }
 
-// ledgerCheck turns new ledger events into violations of prop (used by every
+// LedgerCheck turns new ledger events into violations of prop (used by every
 // property's cases: the ledger is always on).
-func ledgerCheck(c *mon.Case) {
+func LedgerCheck(c *mon.Case) {
 	snap := mangos.VerifLedger()
 	if snap.NEvents > 0 {
 		for _, e := range snap.Events {
@@ -317,6 +322,6 @@ func ledgerCheck(c *mon.Case) {
 	}
 }
 
-func goschedYield() { runtimeGosched() }
+func goschedYield() { runtime.Gosched() }
 
-func newRand(seed int64) *rand.Rand { return rand.New(rand.NewSource(seed)) }
+func NewRand(seed int64) *rand.Rand { return rand.New(rand.NewSource(seed)) }
